@@ -214,6 +214,47 @@ func c04Values(r *eng.Run) {
 		}
 		count("1c:exact-tier cells", n)
 	})
+	// zeros: every spelling keeps the sign of zero
+	{
+		n := 0
+		for z := 0; z <= 45; z++ {
+			for _, e := range []string{"", "e0", "e5", "E-7", "e+400", "e-400"} {
+				for _, sign := range []string{"", "-"} {
+					lit := sign + "0"
+					if z > 0 {
+						lit += "." + strings.Repeat("0", z)
+					}
+					one(lit+e, "zero")
+					n++
+				}
+			}
+		}
+		count("1e:zeros", n)
+	}
+	// very long zero runs with a compensating exponent: the value is a small exact number, so
+	// the expectation is computed by hand (no oracle involved)
+	{
+		n := 0
+		for _, Z := range []int{9990, 9999, 10000, 10001, 10400, 20000, 99998, 99999, 100000, 100001, 120000} {
+			for _, d := range []string{"1", "5", "25"} {
+				want, _ := strconv.ParseFloat(d, 64)
+				cases := map[string]float64{
+					"0." + strings.Repeat("0", Z) + d + "e" + strconv.Itoa(Z+len(d)): want,
+					d + strings.Repeat("0", Z) + "e-" + strconv.Itoa(Z):              want,
+					"-" + d + strings.Repeat("0", Z) + ".0E-" + strconv.Itoa(Z):      -want,
+				}
+				for lit, w := range cases {
+					n++
+					atomic.AddInt64(&evals, 1)
+					got, p, err := rjson.ReadFloat64([]byte(lit))
+					if err != nil || p != len(lit) || math.Float64bits(got) != math.Float64bits(w) {
+						r.Violation(eng.Replay{Engine: "num", Entry: "ReadFloat64", Sig: fmt.Sprintf("ReadFloat64/value/zero-run-with-compensating-exponent/Z=%d", Z), InputB64: []byte(lit), Expected: fmt.Sprintf("%s p=%d", fdesc(w), len(lit)), Got: fmt.Sprintf("%s p=%d %s", fdesc(got), p, errStr(err))})
+					}
+				}
+			}
+		}
+		count("1f:zero runs with compensating exponent", n)
+	}
 	// leading-zero fractions up to 25 zeros (the 19-digit counter counts leading zeros)
 	eng.Parallel(26, func(z int) {
 		n := 0
@@ -381,6 +422,18 @@ func halfwayVariants(hs string) []string {
 			vs = append(vs, bi.String()+".9999999999999999999999999")
 		}
 	}
+	// zero-padded to exactly 797..802 significant digits with a non-zero last digit (the
+	// multiprecision buffer holds 800)
+	if sd := sigDigits(hs); sd < 790 {
+		for _, total := range []int{797, 798, 799, 800, 801, 802} {
+			pad := total - sd - 1
+			if strings.Contains(hs, ".") {
+				vs = append(vs, hs+strings.Repeat("0", pad)+"1")
+			} else {
+				vs = append(vs, hs+"."+strings.Repeat("0", pad)+"1")
+			}
+		}
+	}
 	for _, n := range []int{17, 18, 19, 20, 21} {
 		t := truncSig(hs, n)
 		vs = append(vs, t)
@@ -464,4 +517,22 @@ func auditWitness(q int) string {
 		return v.(string)
 	}
 	return ""
+}
+
+// sigDigits counts the significant digits of a plain decimal (from the first non-zero digit).
+func sigDigits(s string) int {
+	n, started := 0, false
+	for i := 0; i < len(s); i++ {
+		c := s[i]
+		if c < '0' || c > '9' {
+			continue
+		}
+		if c != '0' {
+			started = true
+		}
+		if started {
+			n++
+		}
+	}
+	return n
 }
